@@ -12,13 +12,16 @@ RULE = ("(a) EXACT by choice-point enumeration: for k in 1..3, n <= k+4, p = j/m
         "default p = 1/k and p in {0, 1}) every outcome of the library's draws is executed (random() walks the m grid cells, "
         "randrange(k) all k slots, leaf probabilities multiplied as rationals) and for EVERY prefix length n' <= n and every arrival t "
         "P(t retained at n') must EQUAL p(1-p/k)^(n'-t) (t > k) resp. (1-p/k)^(n'-k) (t <= k) as rationals - which includes P(new "
-        "arrival present right after it arrived) = p; the slot law P(slot s | entered) = 1/k is checked on the first replacement. "
+        "arrival present right after it arrived) = p; the slot law P(slot s | entered) = 1/k is checked on the first replacement; half of the configurations feed EQUAL observations (low-cardinality stream, arrivals identified by their stored targets). "
         "(b) Monte-Carlo (exact binomial tails, two stages, delta 1e-9/1e-6) for off-grid p drawn by Hypothesis, larger k/n and the "
         "explainers' default (k=100, p=1/100). (c) Scripted: with p = 1 EVERY script of draws (including u = 0.0 and u = 1-2^-53) stores "
         "the newest arrival - the clause TreeStorage relies on. Non-trivial: n >= k+2 and 0 < p < 1; distinct = (k, n, p, outcome path) "
         "for enumeration, (k, n, p, retained set) for sampling.")
 ASSUMPTIONS = ["uniformity of CPython's randrange/_randbelow and of random() (the grid is exact because acceptance thresholds lie on it)",
                "Monte-Carlo part: deviations below the reported minimal detectable effect pass"]
+
+
+DUPLICATES = {'on': False}
 
 
 def law(k, p, n, t):
@@ -31,12 +34,18 @@ def law(k, p, n, t):
 def drive(k, p, n):
     """Returns the retained id sets after every update (list of tuples) and the slot of the first replacement."""
     from ixai.storage import GeometricReservoirStorage
-    s = GeometricReservoirStorage(size=k, constant_probability=p, store_targets=False)
+    dup = DUPLICATES['on']
+    s = GeometricReservoirStorage(size=k, constant_probability=p, store_targets=dup)
     hist = []
     first_slot = None
     for i in range(1, n + 1):
-        s.update({'id': i})
-        ids = [x['id'] for x in s.get_data()[0]]
+        if dup:
+            # equal observations (a constant / low-cardinality stream): arrivals are identified by the target stored with them
+            s.update({'v': i % 2}, i)
+            ids = list(s.get_data()[1])
+        else:
+            s.update({'id': i})
+            ids = [x['id'] for x in s.get_data()[0]]
         if first_slot is None and i > k and i in ids:
             first_slot = ids.index(i)
         hist.append(tuple(sorted(ids)))
@@ -46,6 +55,7 @@ def drive(k, p, n):
 def run_enum(case):
     k, n, m, j = case['k'], case['n'], case['m'], case['j']
     default = case.get('default', False)
+    DUPLICATES['on'] = bool(case.get('duplicates'))
     p_frac = Fraction(1, k) if default else Fraction(j, m)
     p_arg = None if default else (j / m if j not in (0, m) else (0 if j == 0 else 1))
     incl = {}
@@ -171,7 +181,7 @@ def run(ctx):
                     per = (m - j) + j * k
                     if per ** extra <= 30000:
                         break
-                case = {'k': k, 'n': k + extra, 'm': m, 'j': j, 'default': default}
+                case = {'k': k, 'n': k + extra, 'm': m, 'j': j, 'default': default, 'duplicates': (k + m + j) % 2 == 1}
                 res = run_enum(case)
                 paths = res.detail.get('paths', []) if isinstance(res.detail, dict) else []
                 if isinstance(res.detail, dict):
